@@ -899,7 +899,9 @@ def oracles(lines):
                              "every context with a pending statement had one that was readable in this pass")))
 
     def f34_poll(k_op, now0, fe):
-        if has_faults or has_flush_faults or has_pat or has_read_faults or dyn_cfg_changes or not f34_wait:
+        # with a non-zero sink_min_flush_interval an idle poll emits no event at all: "no event" is then no evidence that a poll
+        # with work to do processed nothing, so the streak rule is applied to interval-0 scripts only (every idle poll flushes)
+        if has_faults or has_flush_faults or has_pat or has_read_faults or dyn_cfg_changes or not f34_wait or cfg.get("flushint", 0):
             del f34_streak[:]
             return
         plain = [e for e in fe if not e.startswith("[@")]
